@@ -67,6 +67,17 @@ def evaluate(world, run):
             probe("moved_blueprint_exit_%s" % ex["exit"])
         before, after = ex["before"], ex["after"]
         code, sig = ex["exit"], ex["signal"]
+        # `ref: first` (output directory reached through a symbolic link): the paths written into the
+        # generated manifest legitimately go through the link, so the reference bytes are what the
+        # FIRST successful generation of this history wrote, not the clean-world golden
+        selfref = step.get("ref") == "first"
+        first_ok = None
+        if selfref:
+            for other in run["execs"]:
+                if (other["n"] < ex["n"] and other["step"].get("ref") == "first" and other["step"]["bp"] == bp
+                        and other["step"]["mode"] == "generate" and other["exit"] == 0 and other["toggles"] == tog):
+                    first_ok = other
+                    break
 
         # ---------------------------------------------------------------- bookkeeping probes
         if proj == "ui":
@@ -133,6 +144,12 @@ def evaluate(world, run):
             if code != 0 or sig is not None:
                 if ex["stderr_len"] == 0:
                     viol("C09", "failure-atomic", "failed-without-diagnostic", ex, "non-zero exit with empty stderr")
+                elif code == 1 and ex["n_errors"] == 0 and not _has_plain_error(ex["stderr"]):
+                    # "exits non-zero having printed at least one ERROR diagnostic": warnings, progress
+                    # lines and notes do not tell the user why the run failed
+                    viol("C09", "failure-atomic", "failed-without-error-diagnostic", ex,
+                         "exit 1 but stderr holds no ERROR report (only: " +
+                         ", ".join(sorted({l.strip() for l in ex["stderr"].splitlines() if l.strip().endswith(":") and l.strip().isupper()})[:4]) + ")")
                 for rel in sorted(set(before) | set(after)):
                     cls = file_class(rel)
                     if cls == "diagnostics-file":
@@ -163,7 +180,7 @@ def evaluate(world, run):
                     if rel not in after:
                         viol("C09", "success-writes-sdk", f"success-without-{file_class(rel)}", ex,
                              f"exit 0 but {rel} does not exist")
-                    elif (mode == "generate" and g is not None and g["exit"] == 0 and not expect_fail
+                    elif (mode == "generate" and not selfref and g is not None and g["exit"] == 0 and not expect_fail
                           and _golden_sha(g, rel) is not None and _sha(after, rel) != _golden_sha(g, rel)
                           and _sha(after, rel) == _sha(before, rel)):
                         viol("C09", "success-writes-sdk", f"success-left-stale-{file_class(rel)}", ex,
@@ -207,7 +224,15 @@ def evaluate(world, run):
             observe("no_golden_for_state")
         crash_exec = faulted and fired and fired["kind"] == "crash"
         inv_gold = "after-fault" if relaxed else "golden-bytes"
-        if accepted and mode == "generate" and code == 0 and sig is None and not crash_exec:
+        if accepted and mode == "generate" and code == 0 and sig is None and not crash_exec and selfref:
+            probe("generated_through_symlinked_output_dir")
+            if first_ok is not None:
+                for rel in AW_FILES:
+                    if _sha(after, rel) != _sha(first_ok["after"], rel):
+                        viol("C10", "golden-bytes", f"second-run-through-symlink-differs-{file_class(rel)}", ex,
+                             f"the same command on unchanged inputs left other bytes in {rel} than its first run",
+                             {rel: _sha(after, rel)}, {rel: _sha(first_ok["after"], rel)})
+        elif accepted and mode == "generate" and code == 0 and sig is None and not crash_exec:
             # 1 (and 4): exit 0 => exactly the golden bytes
             want = list(AW_FILES) + ([step["diag"]] if step.get("diag") else [])
             for rel in want:
@@ -227,8 +252,11 @@ def evaluate(world, run):
         # 2. idempotent re-run
         if accepted and mode == "generate" and not relaxed and code == 0:
             want = list(AW_FILES) + ([step["diag"]] if step.get("diag") else [])
-            unchanged_inputs = all(
-                _sha(before, rel) == _golden_sha(g, "diag.dot" if rel.endswith(".dot") else rel) for rel in want)
+            if selfref:
+                unchanged_inputs = first_ok is not None and all(_sha(before, rel) == _sha(first_ok["after"], rel) for rel in want)
+            else:
+                unchanged_inputs = all(
+                    _sha(before, rel) == _golden_sha(g, "diag.dot" if rel.endswith(".dot") else rel) for rel in want)
             if unchanged_inputs:
                 probe("rerun_on_unchanged_inputs")
                 for rel in want:
@@ -250,6 +278,8 @@ def evaluate(world, run):
                 chk_files = list(AW_FILES) + ([step["diag"]] if step.get("diag") else [])
 
                 def _gold(rel):
+                    if selfref:
+                        return _sha(first_ok["after"], rel) if first_ok is not None else None
                     return _golden_sha(g, "diag.dot" if rel.endswith(".dot") else rel)
 
                 up_to_date = all(_sha(before, rel) == _gold(rel) for rel in chk_files)
@@ -289,6 +319,16 @@ def evaluate(world, run):
                         continue  # written by the `cargo metadata` child, not by pavexc
                     viol("C10", "check-mode", f"check-mode-changes-{file_class(rel)}", ex, f"{rel} differs after a --check run")
     return viols, probes, obs
+
+
+def _has_plain_error(stderr):
+    """An error that did not go through the diagnostic reporter (anyhow's `{e:?}`: I/O failures of the
+    persist phase, cargo metadata failures, ...)."""
+    for l in stderr.splitlines():
+        t = l.strip()
+        if t.startswith(("Error", "error:", "Failed", "Caused by")):
+            return True
+    return False
 
 
 def _first_line_with(text, needle):
